@@ -93,6 +93,10 @@ def check(tier, seed, replay=None):
 
     def observe(datas, expects):
         cases = [{"id": i, "argv": [], "stdin": hexs(d)} for i, d in enumerate(datas)]
+        # every second stream is delivered in short reads of varying sizes (a read that returns fewer bytes than asked for is not the end)
+        crnd = random.Random(len(datas))
+        for c in cases[::2]:
+            c["chunks"] = [crnd.choice([1, 2, 3, 5, 8, 13, 64, 4096]) for _ in range(6)]
         obs = run_cases(jvh, cases)
         recs = []
         for i, d in enumerate(datas):
@@ -120,7 +124,7 @@ def check(tier, seed, replay=None):
     if cand:
         var = ["".join(ch if ord(ch) < 0x10000 else chr(0x4E00 + ord(ch) % 0x5000) for ch in datas[c].decode("utf-8")).encode("utf-8") for c in cand]
         _, vrecs = observe(var, [None] * len(var))
-        vflags, _ = run_trace_spec("Trace_C01", vrecs, "c01v", nproc=1)
+        vflags, _ = run_trace_spec("Trace_C01", vrecs, "c01v", nproc=1 if tier == "quick" else 12)
         bad = {c for k, c, w in vflags if k != "DRIFT"}
         for j, c in enumerate(cand):
             if j not in bad:
